@@ -128,9 +128,15 @@ def make_flake(case, storeStates="all"):
             configPath=cfg_path,
             initIce=case.get("initIce", "indirect"),
         )
+        if case.get("store") is not None:
+            kw["storeStates"] = list(case["store"])     # recorded subset, in the user's order
+        user_is = None
         if case.get("T0") is not None:
-            kw["initialStates"] = {"temp": case["T0"]}
+            user_is = {"temp": case["T0"]}
+            kw["initialStates"] = user_is
+        # (without T0 the DEFAULT ARGUMENT of the constructor is used)
         S = Snowflake(**kw)
+        S._verif_user_initialStates_ok = (user_is is None) or (user_is == {"temp": case["T0"]})
     finally:
         if cfg_path:
             os.unlink(cfg_path)
@@ -151,6 +157,10 @@ def apply_current(S, case, pre):
             S.opcond.cnTemp = oc.get("cnTemp")
         else:
             S.opcond = make_opcond(oc)
+    if "N_vials" in pre:
+        S.N_vials = tuple(case["N_vials"])      # re-declared shape (same number of vials)
+    if "seed" in pre:
+        S.seed = case.get("seed", 2021)
     if "dt" in pre:
         S.dt = case["dt"]
     if "T0" in pre:
@@ -190,6 +200,25 @@ def interaction(S):
     return nbrs, [int(round(x)) for x in np.asarray(ext).ravel()], M
 
 
+def _decoy(case):
+    from ethz_snow.snowflake import Snowflake
+    from ethz_snow.operatingConditions import OperatingConditions
+
+    st = case["opcond"]["start"] + 7.25
+    oc = OperatingConditions(t_tot=10, cooling={"rate": 0.5, "start": st, "end": st - 20})
+    Snowflake(k={"int": 1, "ext": 1, "s0": 1}, N_vials=(1, 1, 1), dt=1, opcond=oc)
+
+
+def _defaults_intact():
+    """the mutable default arguments of the constructor still have their documented values"""
+    import inspect
+    from ethz_snow.snowflake import Snowflake
+
+    d = inspect.signature(Snowflake.__init__).parameters
+    return (d["initialStates"].default == {"temp": None, "sigma": None}
+            and d["k"].default == {"int": 20, "ext": 20, "s0": 20, "s_sigma_rel": 0.1})
+
+
 def _sparse(M):
     """non-zero entries [i, j, value] of a (sparse) matrix"""
     D = np.asarray(M.todense()) if hasattr(M, "todense") else np.asarray(M)
@@ -205,7 +234,11 @@ def run_real(case, script=None):
     mode = "script" if script is not None else "record"
     with contextlib.redirect_stdout(io.StringIO()):   # the code prints warnings
         pre = case.get("pre")
+        # cross-object: another object with the constructor's defaults and ANOTHER start temperature
+        # is built first in this process; objects must not influence each other
+        _decoy(case)
         S = make_flake({**case, **pre} if pre else case)
+        defaults_ok = _defaults_intact()
         if pre:
             # object history: a first run under the `pre` settings, then the CURRENT settings of
             # the case are put on the same object the way a user would (attribute assignment /
@@ -278,8 +311,16 @@ def run_real(case, script=None):
         "kShelf": [float(x) for x in ksh],
         "Hshelf": [float(x) for x in Hs],
         "kInt": float(S.k["int"]), "kExt": float(S.k["ext"]),
-        "T0": float(S.T_k_0),
-        "mask": [bool(x) for x in S._storageMask],
+        # T_k_0 implied by the CONFIGURATION (given temperature, else the start temperature of the
+        # program); what the object holds is an observation
+        "T0": float(case["T0"] if case.get("T0") is not None else case["opcond"]["start"]),
+        "T0_obj": float(S.T_k_0),
+        "defaults_ok": bool(defaults_ok),
+        "userdict_ok": bool(getattr(S, "_verif_user_initialStates_ok", True)),
+        "stored_idx": (sorted(int(i) for i in case["store"]) if case.get("store") is not None else None),
+        # recorded vials implied by the configuration ('all', or the listed vial indices)
+        "mask": ([True] * n if case.get("store") is None else [i in set(case["store"]) for i in range(n)]),
+        "mask_obj": [bool(x) for x in S._storageMask],
         "threshold": float(S.solidificationThreshold),
         "initIce": S.initIce,
         "dt": float(S.dt),
@@ -390,6 +431,8 @@ def impl_nuc_steps(impl):
     N = impl["N"]
     Xs = impl["Xsigma"]
     out = []
+    if impl.get("stored_idx") is not None:
+        return [None if math.isnan(t) else int(round(t / impl["dt"])) - 1 for t in impl["tNuc"]]
     for i in range(impl["n"]):
         if math.isnan(impl["tNuc"][i]):
             out.append(None)
@@ -417,6 +460,8 @@ def compare_run(case, impl, model, tie=1e-9):
         return dis
     if impl["N"] != model["N"]:
         return [f"N_timeSteps: impl {impl['N']} vs model {model['N']}"]
+    if not close(impl["T0_obj"], impl["T0"]):
+        dis.append(f"T_k_0: object holds {impl['T0_obj']!r}, configuration implies {impl['T0']!r}")
     if len(impl["t"]) != model["tlen"]:
         dis.append(f"len(t): impl {len(impl['t'])} vs model {model['tlen']}")
     N = impl["N"]
@@ -608,6 +653,44 @@ def physical(case_config=None):
     ph["cp_l"] = ph["w_s"] * ph["cp_s"] + (1 - ph["w_s"]) * ph["cp_w"]
     ph["T_eq_l"] = ph["T_m"] - ph["D"]
     return ph
+
+
+def stateless_failures(case, impl):
+    """clauses about construction: objects do not influence each other, arguments are not modified,
+    the initial temperature is the configured one. Returns [(clause, detail)]"""
+    out = []
+    if not impl.get("defaults_ok", True):
+        out.append(("stateless_construction", "constructing a Snowflake changed the constructor's default arguments"))
+    if not impl.get("userdict_ok", True):
+        out.append(("stateless_construction", "constructing a Snowflake modified the initialStates dict passed in"))
+    if not close(impl["T0_obj"], impl["T0"]):
+        out.append(("initial_temperature", f"T_k_0 of the object is {impl['T0_obj']!r} but the configuration implies "
+                    f"{impl['T0']!r} (another object built before in this process had another start temperature)"))
+    if impl.get("mask_obj") is not None and impl["mask_obj"] != impl["mask"]:
+        out.append(("storage_mask", "the storage mask differs from the listed vial indices"))
+    return out
+
+
+def subset_failures(case, impl):
+    """recorded subset (int list, any order): row r of X is vial sorted(store)[r]; per vial index:
+    initial column, ice exactly from the recorded nucleation onwards. Returns [(clause, detail)]"""
+    out = []
+    idx = impl["stored_idx"]
+    XT = np.asarray(impl["XT"])
+    Xs = np.asarray(impl["Xsigma"])
+    if XT.shape != (impl["N"], len(idx)):
+        return [("shape", f"state matrix {XT.shape} for {len(idx)} recorded vials")]
+    t = np.asarray(impl["t"])
+    tn = np.asarray(impl["tNuc"])[idx]
+    if np.any(XT[0] != impl["T0"]) or np.any(Xs[0] != 0):
+        out.append(("initial_state", f"column 0 is not T_k_0={impl['T0']}, sigma=0"))
+    ice = Xs != 0
+    should = np.where(np.isnan(tn)[None, :], False, t[:, None] >= tn[None, :] - 1e-9 * np.maximum(1, np.abs(tn[None, :])))
+    if (ice != should).any():
+        k, r = np.argwhere(ice != should)[0]
+        out.append(("ice_iff_after_nucleation", f"recorded row {r} (vial {idx[r]}) column {k}: sigma={Xs[k, r]!r}, "
+                    f"t={t[k]!r}, t_nucleation of that vial={tn[r]!r}"))
+    return out
 
 
 def spec_kshelf(case, impl):
